@@ -519,7 +519,8 @@ pub fn gen_c16(seed: u64, tier: Tier) -> CaseSet {
     }
 
     // ---------------- Turbine: tree positions ----------------
-    let turb_ns: Vec<usize> = if thorough { vec![1, 2, 3, 5, 10, 17, 64, 200, 1000, 2000] } else { vec![1, 2, 3, 5, 10, 17, 64, 200, 1000] };
+    // incl. the boundary counts of the weighted shuffle's 16-ary sum tree (the shuffle runs over n or n - 1 validators)
+    let turb_ns: Vec<usize> = if thorough { vec![1, 2, 3, 5, 10, 15, 16, 17, 18, 64, 200, 255, 256, 257, 258, 1000, 2000, 4096, 4097, 4098] } else { vec![1, 2, 3, 5, 10, 15, 16, 17, 18, 64, 200, 255, 256, 257, 258, 1000] };
     let fanouts = [1u64, 2, 3, 200];
     let n_turb = if thorough { 240 } else { 72 };
     for i in 0..n_turb {
@@ -633,7 +634,7 @@ pub fn gen_c16(seed: u64, tier: Tier) -> CaseSet {
     }
 
     // ---------------- loss-free runs of real nodes (consensus.rs receive path) on the recording network ----------------
-    let run_ns: Vec<usize> = if thorough { vec![1, 2, 3, 5, 10, 33, 64] } else { vec![1, 2, 3, 5, 10, 33] };
+    let run_ns: Vec<usize> = if thorough { vec![1, 2, 3, 5, 10, 16, 17, 33, 64] } else { vec![1, 2, 3, 5, 10, 16, 17, 33] };
     let n_runs = if thorough { 112 } else { 36 };
     let mut leader_is_relay_runs = 0u64;
     let mut leader_inner_runs = 0u64;
